@@ -11,7 +11,7 @@ from ..core import callee_is, AnalysisError, walk_own
 from ..defuse import DefUse, Terms, show, walk_term
 from ..events import container_events, root_name
 from ..paths import path_variants
-from ..tutil import (TTUnknown, callee_of, no_uids, select_ifexp, simp,
+from ..tutil import (TTUnknown, callee_of, lin, no_uids, select_ifexp, simp,
                      tt_eval)
 from ..defuse import key as tkey
 
@@ -33,6 +33,7 @@ EXPLANATION = (
     "in the right polarity for both directions; the three parallel lists "
     "are deleted at the same index; the row is yielded before the iterator "
     "advances. Also: the selection may be written as max(heads, key=score, default=None). "
+    "Also: the chunk-to-rows helpers of the table merger take rows by position or whole-table records conversion (never by index label), and the sortedness guard is tabulated over the number of readers left. "
     "NOT decided: global order for concrete inputs (follows from "
     "the heads-selection argument once these hold and inputs are sorted).")
 TECHNIQUE = ("finite truth table over comparison outcomes + def-use / CFG "
@@ -58,6 +59,8 @@ def run(ctx):
               "mokapot.utils.parquet_row_iterator"):
         _row_iterator(ctx, prog.func(q))
     _table_merger(ctx, prog.func(
+        "mokapot.streaming.MergedTabularDataReader.get_row_iterator"))
+    _chunk_rows(ctx, prog.func(
         "mokapot.streaming.MergedTabularDataReader.get_row_iterator"))
     _merged_entry_points(ctx)
 
@@ -670,6 +673,102 @@ def _complete_generator(fnode):
     return False
 
 
+def _chunk_rows(ctx, f):
+    """The helpers that turn one chunk into rows hand on every row of the
+    chunk exactly once, in chunk order: rows are taken by *position*
+    (``iloc`` over ``range(len(chunk))``) or by one of the whole-table
+    conversions (``to_dict('records')``, ``to_records``, ``itertuples``).
+    Selecting by index *label* (``loc``) yields a row once per occurrence of
+    its label - a chunk whose index repeats a label is multiplied."""
+    prog = ctx.prog
+    judged = 0
+    # the helpers in question are the ones the chunk generator calls with a
+    # chunk (directly, or through a local name they were assigned to)
+    named = set()
+    for g0 in walk_own(f.node):
+        if isinstance(g0, ast.FunctionDef) and g0 is not f.node and \
+                _complete_generator(g0):
+            for c in ast.walk(g0):
+                if isinstance(c, ast.Call) and isinstance(c.func, ast.Name):
+                    named.add(c.func.id)
+    for a in walk_own(f.node):
+        if isinstance(a, ast.Assign) and isinstance(a.value, ast.Name) and \
+                any(isinstance(t_, ast.Name) and t_.id in named
+                    for t_ in a.targets):
+            named.add(a.value.id)
+    for g in walk_own(f.node):
+        if not isinstance(g, ast.FunctionDef) or g is f.node:
+            continue
+        params = [a.arg for a in g.args.args]
+        if len(params) != 1 or _complete_generator(g):
+            continue
+        strict = g.name in named
+        P = ("param", params[0])
+        du = DefUse(prog, f, fnode=g)
+        T = Terms(du, phi_vars=True)
+        ys = [n for n in ast.walk(g) if isinstance(n, (ast.Yield,
+                                                       ast.YieldFrom))]
+        outs = [T.of(y.value) for y in ys if y.value is not None] or [
+            t for _r, t in T.returns()]
+        if not any(x == P for o in outs for x in walk_term(o)):
+            continue
+        if any(isinstance(n, (ast.If, ast.Break, ast.Continue, ast.While,
+                              ast.Try, ast.IfExp)) for n in ast.walk(g)) \
+                or len(outs) != 1:
+            if not strict:
+                continue
+            raise AnalysisError(
+                f"{f.qual}: chunk-to-rows helper '{g.name}' has branches or "
+                "several results; rule C14b-chunk-rows needs re-reading")
+        t = outs[0]
+        while True:
+            c = callee_of(t)
+            if c and c[0] in ("builtins.iter", "builtins.list") and \
+                    len(c[1]) == 1:
+                t = c[1][0]
+            elif t[0] == "mcall" and t[2] in ("reset_index", "copy"):
+                t = t[1]
+            else:
+                break
+        verdict = None
+        if ys and t[0] == "sub" and t[1][0] == "attr" and t[1][1] == P:
+            k = t[2]
+            # a position that runs over all rows: range(len(chunk)) or
+            # range(len(chunk.index)), also spelled with enumerate
+            one = False
+            for IDX in (("idx", P), ("idx", ("attr", P, "index"))):
+                one = one or k == ("list", (IDX,)) or (
+                    k[0] == "slice" and k[1] == IDX and lin(k[2]) == lin(
+                        ("bin", "+", IDX, ("const", 1)))
+                    and k[3] == ("const", None))
+            if t[1][2] == "iloc" and one:
+                verdict = True
+            elif t[1][2] in ("loc", "at", "xs"):
+                verdict = False
+        elif not ys and t[0] == "mcall" and t[1] == P:
+            kw = dict(t[4])
+            if t[2] == "to_dict":
+                o = kw.get("orient", t[3][0] if t[3] else None)
+                verdict = o == ("const", "records")
+            elif t[2] in ("to_records", "itertuples"):
+                verdict = True
+        if verdict is None and not strict:
+            continue        # some other one-argument helper (a value getter)
+        if verdict is None:
+            raise AnalysisError(
+                f"{f.qual}: chunk-to-rows helper '{g.name}' produces "
+                f"{show(t, 100)}, a form rule C14b-chunk-rows does not read")
+        judged += 1
+        ctx.check(verdict, "C14b-chunk-rows-by-position", f,
+                  f"'{g.name}' hands on every row of the chunk once, by "
+                  "position or whole-table conversion",
+                  f"'{g.name}' produces {show(outs[0], 120)}: rows are not "
+                  "taken one per position (selection by index label returns "
+                  "a row once per occurrence of its label; a non-records "
+                  "conversion does not yield rows)", node=g)
+    ctx.floor("C14b-chunk-row-helpers", judged, 3)
+
+
 def _merged_entry_points(ctx):
     """read() and get_chunked_data_iterator() of the merged reader hand out
     rows only from get_row_iterator(): the merge order and the sortedness
@@ -753,8 +852,16 @@ def _table_merger(ctx, f):
             c = callee_of(select_ifexp(it, FLAG, val))
             got = (c[0], c[1][0][:2] if c[1] else None) if c else (
                 show(it, 60), None)
+            prev = sel.get(val, got)
+            if prev != got and prev[0] == got[0] and None not in (
+                    prev[1], got[1]) and (prev[1][0] == "var") != (
+                        got[1][0] == "var"):
+                # a path that leaves the loop sees the list's initial
+                # value where the others see the loop-carried variable
+                got = prev if prev[1][0] == "var" else got
+                sel[val] = got
             ctx.require(sel.get(val, got) == got,
-                        f"{f.qual}: two selections for one direction")
+                        f"{f.qual}: two selections for one direction: {sel.get(val)} / {got}")
             sel[val] = got
     ok = (sel.get(True, (None,))[0] == "numpy.argmax"
           and sel.get(False, (None,))[0] == "numpy.argmin"
@@ -818,10 +925,14 @@ def _table_merger(ctx, f):
     NEW = upd[0][3] if len(upd) == 1 else None
     OLD = ("sub", None, IDX)
 
-    def atoms_for(desc, new, old):
+    def atoms_for(desc, new, old, n_left=2):
         def atoms(t):
             if t == FLAG:
                 return desc
+            if t[0] == "call" and t[1] == "builtins.len" and len(
+                    t[2]) == 1 and t[2][0][0] == "var" and t[2][0][1] in (
+                        ITERS, ROWS, VALS):
+                return n_left
             if NEW is not None and simp(t) == NEW:
                 return new
             if t[0] == "sub" and t[1][0] == "var" and t[1][1] == VALS and \
@@ -846,14 +957,16 @@ def _table_merger(ctx, f):
         try:
             for desc in (True, False):
                 for new in (0, 1, 2):
-                    at = atoms_for(desc, new, 1)
-                    rej = any(all(bool(tt_eval(t, at)) == o for t, o in cs)
-                              for cs in rconds)
-                    want = (desc and new > 1) or (not desc and new < 1)
-                    table.append((desc, new, 1, rej))
-                    if rej != want:
-                        bad.append({"descending": desc, "new": new,
-                                    "old": 1, "rejected": rej})
+                    for n_left in (1, 2, 3):
+                        at = atoms_for(desc, new, 1, n_left)
+                        rej = any(all(bool(tt_eval(t, at)) == o
+                                      for t, o in cs) for cs in rconds)
+                        want = (desc and new > 1) or (not desc and new < 1)
+                        table.append((desc, new, 1, rej))
+                        if rej != want:
+                            bad.append({"descending": desc, "new": new,
+                                        "old": 1, "readers left": n_left,
+                                        "rejected": rej})
         except (TTUnknown, KeyError) as e:
             ok_s = False
             raise AnalysisError(
@@ -862,7 +975,7 @@ def _table_merger(ctx, f):
     ctx.check(ok_s and not bad, "C14b-sortedness-check", f,
               "an input that is not sorted as declared is rejected (raise "
               "when a new head exceeds the previous one in descending mode, "
-              "falls below it in ascending mode; 6 valuations)",
+              "falls below it in ascending mode, however many readers are left; 18 valuations)",
               f"sortedness guards deviate: {bad[:3]}", node=tr)
     # ---- the stored value is the new head's value and is refreshed on
     # every normal path back to the loop head
